@@ -10,7 +10,12 @@
 //! fixed per run and per slot, so that near-duplicates share them and differ only in the
 //! whitespace inside a *later* literal.  Whitespace the grammar does not know (NBSP, FF, VT,
 //! U+2028, U+3000 …) appears between keywords, inside literals, and at the very start / very
-//! end of the text.  The scheduler stream interleaves the clients;
+//! end of the text.  A block comment with a per-run body built from comment markers and quotes
+//! (`/*/ it's */`, `/* ** */`, `/*'/ *"*/` …) sits at a fixed gap of every spelling, so that
+//! near-duplicates share it and differ only in the whitespace inside a literal *after* it.
+//! Multi-word operators and keywords (STARTS WITH, ENDS WITH, IS NOT NULL, ORDER BY, DETACH
+//! DELETE, ON CREATE SET, OPTIONAL MATCH, UNION ALL …) are spelled with blanks, tabs, newlines
+//! or comments *between their words*.  The scheduler stream interleaves the clients;
 //! the cache capacity is a knob (1, 2, 3, 1024) so eviction and re-insertion happen.
 //!
 //! Oracle (every call): `engine.execute*(s, storeA)` ≡ `parse_query(s)` + a fresh executor on
@@ -105,6 +110,99 @@ const WRITES: [&str; 9] = [
     "MERGE ( n : A { t : §0 , s : §1 } )",
 ];
 
+/// Statements built around multi-word operators / keywords (runs with `style.mw`).  The words
+/// of such a token are separate template tokens, so the gap *inside* it is spelled like any
+/// other gap — and, in these runs, more aggressively (see `mw_gap`).
+const MW_READS: [&str; 12] = [
+    "RETURN §0 STARTS WITH §1 AS x",
+    "RETURN §0 ENDS WITH §1 AS x , §0 STARTS WITH §1 AS y",
+    "MATCH ( n : A ) WHERE n . s STARTS WITH §0 RETURN n . k , n . s",
+    "MATCH ( n ) WHERE n . s ENDS WITH §0 RETURN n . k , n . s",
+    "MATCH ( n : A ) WHERE n . t IS NULL RETURN n . k , n . s",
+    "MATCH ( n : A ) WHERE n . t IS NOT NULL RETURN n . s , n . t",
+    "MATCH ( n ) WHERE NOT n . s IN [ §0 , §1 ] RETURN n . k , n . s",
+    "OPTIONAL MATCH ( n : A { s : §0 } ) RETURN n . k , n . t IS NOT NULL AS d",
+    "RETURN §0 AS x UNION ALL RETURN §1 AS x",
+    "MATCH ( n : A ) WITH n . s AS s WHERE s IS NOT NULL RETURN DISTINCT s ORDER BY s DESC",
+    "MATCH ( n : A ) WHERE n . s STARTS WITH §0 OR n . s ENDS WITH §1 RETURN count ( n ) AS c",
+    "UNWIND [ §0 , §1 , null ] AS x RETURN x IS NULL AS z , x STARTS WITH §0 AS w",
+];
+const MW_WRITES: [&str; 6] = [
+    // label M is only ever written by these two MERGEs, so at most one node matches (MERGE binds
+    // only the first of several matches — C04's finding — and which one is first differs per store)
+    "MERGE ( n : M { s : §0 } ) ON CREATE SET n . k = # ON MATCH SET n . t = §1",
+    "MATCH ( n : A ) WHERE n . s STARTS WITH §0 DETACH DELETE n",
+    "MATCH ( n : A ) WHERE n . t IS NULL SET n . t = §0",
+    "MATCH ( n : A ) WHERE n . s ENDS WITH §0 AND n . t IS NOT NULL REMOVE n . t",
+    "CREATE ( n : A { k : # , s : §0 } )",
+    "MERGE ( n : M { s : §0 } ) ON MATCH SET n . k = # ON CREATE SET n . t = §1 , n . k = #",
+];
+
+/// Adjacent template tokens that form one multi-word operator / keyword.
+const MW_PAIRS: [(&str, &str); 14] = [
+    ("STARTS", "WITH"),
+    ("ENDS", "WITH"),
+    ("IS", "NOT"),
+    ("IS", "NULL"),
+    ("NOT", "NULL"),
+    ("ORDER", "BY"),
+    ("DETACH", "DELETE"),
+    ("ON", "CREATE"),
+    ("ON", "MATCH"),
+    ("CREATE", "SET"),
+    ("MATCH", "SET"),
+    ("OPTIONAL", "MATCH"),
+    ("UNION", "ALL"),
+    ("RETURN", "DISTINCT"),
+];
+
+fn mw_pair(a: &str, b: &str) -> bool {
+    MW_PAIRS.iter().any(|(x, y)| *x == a && *y == b)
+}
+
+/// The gap between two words of a multi-word token: one blank in half of the spellings, else
+/// more blanks / tab / newline(s) (all of which a whitespace-collapsing cache key equates with
+/// the single blank) or, when the run has comments, a comment.
+fn mw_gap(r: &mut Rng, comments: bool) -> String {
+    if r.chance(1, 2) {
+        return " ".into();
+    }
+    let n = if comments { 10 } else { 7 };
+    ["  ", "\n", "\t", " \n  ", "\r\n", "   ", "\n\n", "/**/", " /* c */ ", " //c\n"][r.usize_below(n)].to_string()
+}
+
+/// Pieces a per-run block-comment body is assembled from.  Neutral ones: comment markers, runs
+/// of `*` and `/`, blanks, a newline, a backslash …
+const BC_PLAIN: [&str; 16] = ["/", "*", "**", "//", "c", "c  d", " ", "  ", "* /", "/ *", "/*", "\\", "\n", "***", "///", "--"];
+/// … and ones that carry a quote of either kind or a back-tick (one of them = unbalanced).
+const BC_QUOTED: [&str; 12] = ["'", "\"", "it's", "*'", "'*", "/'", "\"/", "say \"hi", " ' ", "`", "x 'y  z'", "'\""];
+
+/// A block-comment body (the text between `/*` and `*/`).  It never contains `*/`, so
+/// `/*{body}*/` is exactly one comment to the grammar — wherever a scanner with a different
+/// idea of where a block comment ends, or of what a quote inside one means, thinks it stops.
+fn bc_body(r: &mut Rng) -> String {
+    let mut pieces: Vec<&str> = (0..r.usize_below(4)).map(|_| BC_PLAIN[r.usize_below(BC_PLAIN.len())]).collect();
+    if r.chance(2, 3) {
+        let at = r.usize_below(pieces.len() + 1);
+        pieces.insert(at, BC_QUOTED[r.usize_below(BC_QUOTED.len())]);
+    }
+    if r.chance(1, 4) {
+        pieces.push(BC_QUOTED[r.usize_below(BC_QUOTED.len())]);
+    }
+    let mut b = String::new();
+    if r.chance(1, 2) {
+        b.push('/'); // `/*/ … */`
+    }
+    b.push_str(&pieces.concat());
+    if r.chance(1, 5) {
+        b.push('*'); // `/* … **/`
+    }
+    while b.contains("*/") {
+        b = b.replace("*/", "* /");
+    }
+    b
+}
+
 #[derive(Clone)]
 struct Base {
     write: bool,
@@ -176,12 +274,16 @@ fn gap(r: &mut Rng, required: bool, allow_swallow: bool, comments: bool) -> (Str
 /// Spell a base statement.  Returns (text, skeleton): the skeleton is the list of effective
 /// tokens (keywords upper-cased, literals verbatim, tokens swallowed by a line comment
 /// dropped) — two strings with equal skeletons mean the same thing.
-fn spell(r: &mut Rng, b: &Base, ints: &mut u64, style: &Style) -> (String, Vec<String>) {
+///
+/// Third result: how many multi-word operators / keywords have something other than one blank
+/// between two of their words.
+fn spell(r: &mut Rng, b: &Base, ints: &mut u64, style: &Style) -> (String, Vec<String>, u64) {
     let fam = FAMILIES[b.family];
     let toks: Vec<&str> = b.template.split(' ').collect();
     let mut out = String::new();
     let mut skel: Vec<String> = Vec::new();
     let mut swallowed = false;
+    let mut mw_apart = 0u64;
     let quote = if style.mixed_quotes && r.chance(1, 3) { '"' } else { '\'' };
     let lead = if r.chance(1, 6) { [" ", "\n", "  ", "/* h */ "][r.usize_below(4)] } else { "" };
     // whitespace the grammar does not know at the very start of the text (alone or next to
@@ -230,7 +332,18 @@ fn spell(r: &mut Rng, b: &Base, ints: &mut u64, style: &Style) -> (String, Vec<S
         if i > 0 {
             let first = text.chars().next().unwrap_or(' ');
             let required = prev_wordy && wordy(first);
-            let (g, sw) = if style.lc_gap > 0 && i == style.lc_gap {
+            let (g, sw) = if style.bc_gap > 0 && i == style.bc_gap {
+                // the run's block comment: same body in every spelling, only the blanks around
+                // it vary (they are between tokens)
+                let pad = |r: &mut Rng| if style.plain_gaps || r.chance(3, 4) { " " } else { "" };
+                (format!("{}/*{}*/{}", pad(r), style.bc_body, pad(r)), false)
+            } else if style.mw && mw_pair(toks[i - 1], t) {
+                let g = mw_gap(r, style.comments);
+                if g != " " {
+                    mw_apart += 1;
+                }
+                (g, false)
+            } else if style.lc_gap > 0 && i == style.lc_gap {
                 if r.chance(1, 3) {
                     (" //c ".to_string(), true)
                 } else {
@@ -272,7 +385,7 @@ fn spell(r: &mut Rng, b: &Base, ints: &mut u64, style: &Style) -> (String, Vec<S
     } else if r.chance(1, 8) {
         out.push_str([" ", "\n", " ;", ";", " /* t */", " // t"][r.usize_below(6)]);
     }
-    (out, skel)
+    (out, skel, mw_apart)
 }
 
 #[derive(Clone, Default)]
@@ -300,6 +413,11 @@ struct Style {
     decor: Vec<usize>,
     /// per string slot: 0 = the spelling's quote, 1 = always single, 2 = always double
     slot_quotes: Vec<usize>,
+    /// when > 0: exactly this gap carries the block comment `/*{bc_body}*/` in every spelling
+    bc_gap: usize,
+    bc_body: String,
+    /// statements around multi-word operators / keywords, the gaps inside them varied
+    mw: bool,
 }
 
 // ------------------------------------------------------------------------------------
@@ -390,8 +508,14 @@ fn lex_meaning(text: &str, collapse_in_strings: bool) -> (String, bool) {
 
 /// The string literals of a text in order (delimiters included), lexed like `lex_meaning`.
 fn lits(text: &str) -> Vec<String> {
+    lits_and_comments(text).0.into_iter().map(|(_, l)| l).collect()
+}
+
+/// (string literals, bodies of closed block comments), each with the char offset it starts at.
+fn lits_and_comments(text: &str) -> (Vec<(usize, String)>, Vec<(usize, String)>) {
     let cs: Vec<char> = text.chars().collect();
     let mut out = Vec::new();
+    let mut comments = Vec::new();
     let mut i = 0;
     while i < cs.len() {
         let c = cs[i];
@@ -409,8 +533,12 @@ fn lits(text: &str) -> Vec<String> {
                 }
                 j += 1;
             }
+            if let Some(k) = closed {
+                comments.push((i, cs[i + 2..k - 2].iter().collect::<String>()));
+            }
             i = closed.unwrap_or(i + 1);
         } else if c == '\'' || c == '"' {
+            let start = i;
             let mut lit = String::new();
             lit.push(c);
             i += 1;
@@ -427,12 +555,27 @@ fn lits(text: &str) -> Vec<String> {
                     break;
                 }
             }
-            out.push(lit);
+            out.push((start, lit));
         } else {
             i += 1;
         }
     }
-    out
+    (out, comments)
+}
+
+/// Bodies of the block comments of `a` that precede the first literal in which `a` and `b`
+/// differ and contain a quote or a comment-marker character (so that a scanner with its own
+/// idea of where such a comment ends — or of what a quote inside it means — is inside-out by
+/// the time it reaches that literal), plus the quote kind of that literal.
+fn marked_comments_before_difference(a: &str, b: &str) -> (Vec<String>, char) {
+    let ((la, ca), lb) = (lits_and_comments(a), lits(b));
+    let first = match la.iter().zip(lb.iter()).position(|((_, x), y)| x != y) {
+        Some(f) => f,
+        None => return (vec![], '\''),
+    };
+    let (at, lit) = &la[first];
+    let bodies = ca.into_iter().filter(|(p, body)| p < at && body.chars().any(|c| matches!(c, '\'' | '"' | '`' | '/' | '*' | '\\'))).map(|(_, body)| body).collect();
+    (bodies, lit.chars().next().unwrap_or('\''))
 }
 
 /// Does the first literal in which the two texts differ come after a literal that contains an
@@ -442,6 +585,25 @@ fn differs_after_escape(a: &str, b: &str) -> bool {
     let (la, lb) = (lits(a), lits(b));
     let first = la.iter().zip(lb.iter()).position(|(x, y)| x != y).unwrap_or(la.len().min(lb.len()));
     la[..first].iter().any(|l| l.contains('\\'))
+}
+
+/// Is there a STARTS WITH / ENDS WITH whose two words are separated by anything but one blank?
+fn operator_words_apart(text: &str) -> bool {
+    let low = text.to_ascii_lowercase();
+    for first in ["starts", "ends"] {
+        let mut from = 0;
+        while let Some(p) = low[from..].find(first) {
+            let after = from + p + first.len();
+            if let Some(w) = low[after..].find("with") {
+                let gap = &low[after..after + w];
+                if gap != " " && !gap.is_empty() && gap.chars().all(|c| grammar_ws(c) || matches!(c, '/' | '*' | 'c')) {
+                    return true;
+                }
+            }
+            from = after;
+        }
+    }
+    false
 }
 
 fn grammar_ws(c: char) -> bool {
@@ -468,8 +630,9 @@ fn collision_class(cur: &Value, earlier: &[(&Value, bool)], hit: bool) -> &'stat
     let (m, lc) = lex_meaning(text, false);
     // every colliding predecessor is a candidate explanation; the most specific one names the class
     let rank = |c: &str| match c {
-        "non_grammar_whitespace_at_text_end" => 7,
-        "whitespace_in_string_literal_after_escape_sequence" => 6,
+        "non_grammar_whitespace_at_text_end" => 9,
+        "whitespace_in_string_literal_after_escape_sequence" => 8,
+        "whitespace_in_string_literal_after_block_comment" => 7,
         "non_grammar_whitespace" => 5,
         "whitespace_in_string_literal" => 4,
         "line_comment_newline_collapsed" => 3,
@@ -494,6 +657,9 @@ fn collision_class(cur: &Value, earlier: &[(&Value, bool)], hit: bool) -> &'stat
         } else if lex_meaning(text, true).0 == lex_meaning(et, true).0 {
             if differs_after_escape(text, et) {
                 "whitespace_in_string_literal_after_escape_sequence"
+            } else if !marked_comments_before_difference(text, et).0.is_empty() {
+                // … or after a block comment made of quotes / comment markers
+                "whitespace_in_string_literal_after_block_comment"
             } else {
                 "whitespace_in_string_literal"
             }
@@ -564,6 +730,11 @@ impl Scenario for C03 {
             "padded_text_after_clean_twin",
             "clean_text_after_padded_twin",
             "padded_text_refused_while_clean_twin_cached",
+            "literal_varies_after_block_comment",
+            "literal_varies_after_comment_with_odd_quote_of_literal_kind",
+            "literal_varies_after_comment_body_starting_with_slash",
+            "hit_by_text_with_multiword_token_spelled_apart",
+            "hit_by_text_with_operator_words_apart",
         ]
     }
     fn generate(&self, s: &mut Streams, _run_index: u64, _tier: Tier) -> Case {
@@ -594,6 +765,9 @@ impl Scenario for C03 {
                 vec![]
             },
             slot_quotes: if s.knobs.chance(1, 8) { (0..3).map(|_| s.knobs.usize_below(3)).collect() } else { vec![] },
+            bc_gap: 0,
+            bc_body: String::new(),
+            mw: false,
         };
         if !style.decor.is_empty() && s.knobs.chance(1, 2) {
             // near-duplicates that differ *only* inside literals
@@ -601,7 +775,24 @@ impl Scenario for C03 {
             style.kw_case = false;
             style.lc_gap = 0;
         }
-        case.knobs.insert("style".into(), json!({"kw_case":style.kw_case,"mixed_quotes":style.mixed_quotes,"backticks":style.backticks,"swallow":style.swallow,"plain_gaps":style.plain_gaps,"small_ints":style.small_ints,"comments":style.comments,"opt_gaps":style.opt_gaps,"fam_lo":style.fam_lo,"fam_n":style.fam_n,"exotic_ws":style.exotic_ws,"lc_gap":style.lc_gap,"opt_mask":style.opt_mask,"exotic_edge":style.exotic_edge,"decor":style.decor,"slot_quotes":style.slot_quotes}));
+        if s.knobs.chance(1, 4) {
+            // one block comment, the same in every spelling, somewhere before the literals
+            style.bc_gap = 1 + s.knobs.usize_below(6);
+            style.bc_body = bc_body(&mut s.knobs);
+            if s.knobs.chance(1, 2) {
+                style.plain_gaps = true;
+                style.kw_case = false;
+                style.lc_gap = 0;
+            }
+        }
+        if s.knobs.chance(1, 4) {
+            style.mw = true;
+            if s.knobs.chance(1, 2) {
+                // every literal the same member: spellings differ only between tokens
+                style.fam_n = 1;
+            }
+        }
+        case.knobs.insert("style".into(), json!({"kw_case":style.kw_case,"mixed_quotes":style.mixed_quotes,"backticks":style.backticks,"swallow":style.swallow,"plain_gaps":style.plain_gaps,"small_ints":style.small_ints,"comments":style.comments,"opt_gaps":style.opt_gaps,"fam_lo":style.fam_lo,"fam_n":style.fam_n,"exotic_ws":style.exotic_ws,"lc_gap":style.lc_gap,"opt_mask":style.opt_mask,"exotic_edge":style.exotic_edge,"decor":style.decor,"slot_quotes":style.slot_quotes,"bc_gap":style.bc_gap,"bc_body":style.bc_body,"mw":style.mw}));
         // pool of base statements; one family per run most of the time so literals collide
         let nb = 2 + s.knobs.usize_below(3);
         let fam0 = s.knobs.usize_below(FAMILIES.len());
@@ -615,6 +806,9 @@ impl Scenario for C03 {
                 let m: Vec<&'static str> = if write { WRITES.iter() } else { READS.iter() }.copied().filter(|t| t.contains("§1")).collect();
                 template = m[s.knobs.usize_below(m.len())];
             }
+            if style.mw && s.knobs.chance(3, 4) {
+                template = if write { MW_WRITES[s.knobs.usize_below(MW_WRITES.len())] } else { MW_READS[s.knobs.usize_below(MW_READS.len())] };
+            }
             let family = if s.knobs.chance(4, 5) { fam0 } else { s.knobs.usize_below(FAMILIES.len()) };
             pool.push(Base { write, template, family });
         }
@@ -623,8 +817,8 @@ impl Scenario for C03 {
         for _ in 0..n {
             let client = s.sched.below(clients);
             let b = pool[s.workload.usize_below(pool.len())].clone();
-            let (text, skel) = spell(&mut s.workload, &b, &mut ints, &style);
-            case.events.push(json!({"op":"q","client":client,"w":b.write,"s":text,"skel":skel}));
+            let (text, skel, mw_apart) = spell(&mut s.workload, &b, &mut ints, &style);
+            case.events.push(json!({"op":"q","client":client,"w":b.write,"s":text,"skel":skel,"mw":mw_apart}));
         }
         case
     }
@@ -728,7 +922,7 @@ impl Scenario for C03 {
                 lru.push(key.clone());
             }
             let cclass = collision_class(ev, &earlier, hit);
-            if cclass == "whitespace_in_string_literal" || cclass == "line_comment_newline_collapsed" || cclass == "other_collision" || cclass == "non_grammar_whitespace" || cclass == "whitespace_in_string_literal_after_escape_sequence" || cclass == "non_grammar_whitespace_at_text_end" {
+            if cclass == "whitespace_in_string_literal" || cclass == "line_comment_newline_collapsed" || cclass == "other_collision" || cclass == "non_grammar_whitespace" || cclass == "whitespace_in_string_literal_after_escape_sequence" || cclass == "non_grammar_whitespace_at_text_end" || cclass == "whitespace_in_string_literal_after_block_comment" {
                 o.probe("collision_with_different_meaning");
             }
             if cclass == "whitespace_in_string_literal_after_escape_sequence" {
@@ -738,6 +932,49 @@ impl Scenario for C03 {
                 let ls = lits(&text);
                 if ls.iter().take(ls.len().saturating_sub(1)).any(|l| l.strip_suffix(['\'', '"']).map(|x| x.ends_with("\\\\")).unwrap_or(false)) {
                     o.probe("literal_varies_after_literal_ending_in_escaped_backslash");
+                }
+            }
+            if cclass == "whitespace_in_string_literal_after_block_comment" {
+                // near-duplicates that differ only inside a literal which follows a block comment
+                // whose body holds quotes / comment markers; sharper: which lexical corner
+                o.probe("literal_varies_after_block_comment");
+                let (m, _) = lex_meaning(&text, true);
+                for (e, e_parsed) in &earlier {
+                    let et = s(e, "s");
+                    if et == text || collapse(et) != key || (hit && !*e_parsed) || lex_meaning(et, true).0 != m {
+                        continue;
+                    }
+                    let (bodies, q) = marked_comments_before_difference(&text, et);
+                    let odd = bodies.iter().any(|b| b.chars().filter(|c| *c == q).count() % 2 == 1);
+                    let slash = bodies.iter().any(|b| b.starts_with('/'));
+                    if odd {
+                        o.probe("literal_varies_after_comment_with_odd_quote_of_literal_kind");
+                    }
+                    if slash {
+                        o.probe("literal_varies_after_comment_body_starting_with_slash");
+                    }
+                    if bodies.iter().any(|b| b.ends_with('*')) {
+                        o.probe("literal_varies_after_comment_body_ending_with_star");
+                    }
+                    if bodies.iter().any(|b| b.starts_with('/') && b.chars().filter(|c| *c == q).count() % 2 == 1) {
+                        o.probe("literal_varies_after_comment_starting_with_slash_with_odd_quote");
+                    }
+                    if odd || slash {
+                        break;
+                    }
+                }
+            }
+            let mw_apart = ev.get("mw").and_then(|x| x.as_u64()).unwrap_or(0);
+            if mw_apart > 0 {
+                o.probe("multiword_token_spelled_apart");
+                if hit && !seen_keys.get(&key).map(|t| t.contains(&text)).unwrap_or(false) {
+                    o.probe("hit_by_text_with_multiword_token_spelled_apart");
+                    if operator_words_apart(&text) {
+                        o.probe("hit_by_text_with_operator_words_apart");
+                    }
+                }
+                if !hit && operator_words_apart(&text) {
+                    o.probe("miss_by_text_with_operator_words_apart");
                 }
             }
             if cclass == "non_grammar_whitespace_at_text_end" {
